@@ -36,7 +36,7 @@ ASSUMPTIONS = [
     "value variety is one integer instance per (term, batch); layouts and code paths are what is enumerated",
 ]
 CHUNK = 4
-CASE_TIMEOUT = 1800
+CASE_TIMEOUT = 7200
 DT = torch.float64
 LAYOUTS = ["contig", "tview", "sliced", "expanded"]
 CFGS = [{}, {"max_cholesky_size": 0}, {"max_cholesky_size": 0, "min_preconditioning_size": 0}]
